@@ -18,8 +18,7 @@ type VFuncs struct {
 	Dup      map[string]func(c VC) (VC, VC)
 	JoinCC   map[string]func(in *vsched.Chan[VC]) VC
 	JoinSC   map[string]func(in []VC) VC
-	JoinV2   func(c0, c1 VC) VC
-	JoinV3   func(c0, c1, c2 VC) VC
+	JoinV    map[string]func(cs []VC) VC // select form, 2, 3, 5 and 6 channels
 	Pipeline func(f func(int) VC, g func(int) VC) func(int) VC
 	Do2      map[string]func(f0, f1 func() (int, error)) (int, int, error)
 	Do3      map[string]func(f0, f1, f2 func() (int, error)) (int, int, int, error)
@@ -46,8 +45,8 @@ var roleOf = map[string]string{
 	"deriveFmapC": "fmap", "deriveFmap": "fmap",
 	"deriveDupR": "dup", "deriveDupB": "dup",
 	"deriveJoinCC": "join", "deriveJoinCCb": "join", "deriveJoinSC": "join", "deriveJoinSCb": "join",
-	"deriveJoinV2": "joinsel", "deriveJoinV3": "joinsel",
-	"deriveDo2": "do", "deriveDo3": "do", "deriveDo4": "do", "deriveDo2b": "do", "deriveDo3b": "do",
+	"deriveJoinV2": "joinsel", "deriveJoinV3": "joinsel", "deriveJoinV5": "joinsel", "deriveJoinV6": "joinsel",
+	"deriveDo2": "do", "deriveDo3": "do", "deriveDo4": "do", "deriveDo2b": "do", "deriveDo3b": "do", "deriveDo3m": "do",
 }
 
 func canonName(s string) string {
@@ -191,20 +190,15 @@ func VBody(F *VFuncs, c Config, o *Outcome) (func(), error) {
 			vsched.Spawn("cons0", consumer(out, o, 0))
 		}, nil
 	case "joinsel":
-		if c.Variant == "JoinV2" && len(c.Items) == 2 {
-			return func() {
-				ins := mkIns()
-				out := F.JoinV2(ins[0], ins[1])
-				vsched.Spawn("cons0", consumer(out, o, 0))
-			}, nil
+		fn := F.JoinV[c.Variant]
+		if fn == nil || len(c.Items) != SelArity(c.Variant) {
+			break
 		}
-		if c.Variant == "JoinV3" && len(c.Items) == 3 {
-			return func() {
-				ins := mkIns()
-				out := F.JoinV3(ins[0], ins[1], ins[2])
-				vsched.Spawn("cons0", consumer(out, o, 0))
-			}, nil
-		}
+		return func() {
+			ins := mkIns()
+			out := fn(ins)
+			vsched.Spawn("cons0", consumer(out, o, 0))
+		}, nil
 	case "pipeline":
 		return func() {
 			f := func(a int) VC {
@@ -274,3 +268,13 @@ func VBody(F *VFuncs, c Config, o *Outcome) (func(), error) {
 
 // F3 is conc.F as a func value.
 func F3(x int) int { return F(x) }
+
+// Mixed3 adapts a Do over functions of three different result types to the uniform scenario signature.
+func Mixed3(do func(func() (int, error), func() (int64, error), func() (string, error)) (int, int64, string, error),
+	f0, f1, f2 func() (int, error)) (int, int, int, error) {
+	v0, v1, v2, err := do(f0,
+		func() (int64, error) { v, e := f1(); return int64(v), e },
+		func() (string, error) { v, e := f2(); return strconv.Itoa(v), e })
+	n2, _ := strconv.Atoi(v2)
+	return v0, int(v1), n2, err
+}
